@@ -6,6 +6,7 @@ import (
 	"fmt"
 	"io"
 	"os"
+	"regexp"
 	"strings"
 
 	"github.com/tdewolff/parse/v2/xml"
@@ -129,6 +130,12 @@ func c11Generated(t *fw.T) {
 	if t.Failed() {
 		return
 	}
+	if c11PIWithGT.MatchString(doc) {
+		// encoding/xml reads a DOCTYPE as one directive and counts the '>' inside a processing instruction of the internal
+		// subset as closing bracket: no reference for such documents (the token list above is the oracle)
+		t.Count("docs.without_reference", 1)
+		return
+	}
 	std, err := c11Std([]byte(doc))
 	if err != nil {
 		t.Count("generator.rejected_by_encoding_xml", 1) // generator guard, not a library verdict
@@ -225,6 +232,8 @@ func c11Structural(t *fw.T, data []byte, ctor string) {
 	}
 	t.Failf("no terminal report")
 }
+
+var c11PIWithGT = regexp.MustCompile(`<\?p [^?]*>[^?]*\?>`)
 
 var c11Probes = []struct{ name, doc string }{
 	{"nul-in-text", "<a>b\x00c</a>"},
